@@ -19,6 +19,20 @@ EXTRA = [
   ('duckdb_typed', '@Engine("duckdb");\nT(1, "a");\nQ(x, {a: y, b: [x]}) :- T(x, y);\nR(s) List= x :- Q(x, s);', ['Q']),
   ('incantation', '# Signa inter verba conjugo, symbolum infixus evoco!\n@Engine("sqlite");\nT(1);\nQ(x) :- T(x);', ['Q']),
   ('infix_like', '@Engine("sqlite");\nQ(y) :- y == 2*(3);', ['Q']),
+  # type-checked compilations that narrow or redefine built-ins (histories for the type inference tables)
+  ('sqlite_typed_argmin', '@Engine("sqlite", type_checking: true);\nT(1, 2);\nQ(ArgMin{x -> y :- T(x, y)}, ArgMax{x -> y :- T(x, y)});', ['Q']),
+  ('psql_argmax_list', '@Engine("psql");\nT(1);\nQ(ArgMax{[x, x] -> x :- T(x)}, ArgMin{[x] -> x :- T(x)});', ['Q']),
+  ('psql_greatest_str', '@Engine("psql");\nQ(Greatest("a", "b"), Least("c", "d"));', ['Q']),
+  ('duckdb_own_greatest', '@Engine("duckdb");\nGreatest(x, y) = x + y;\nLeast(x, y) = x * y;\nQ(Greatest(1, 2), Least(2, 3));', ['Q']),
+  ('duckdb_greatest_num', '@Engine("duckdb");\nT(1);\nQ(Greatest(x, 2), Size([x])) :- T(x);', ['Q']),
+  ('psql_size_str_list', '@Engine("psql");\nQ(Size(["a"]), Size([1]), ["a"] ++ ["b"], "a" ++ "b");', ['Q']),
+  ('recursive_depth3', '@Engine("sqlite");\n@Recursive(N, 3);\nN(0);\nN(x + 1) :- N(x);\nQ(x) :- N(x);', ['Q', 'N']),
+  ('recursive_depth30_stop', '@Engine("sqlite");\n@Recursive(N, 30, stop: Done);\nN(0) distinct;\nN(x + 1) distinct :- N(x), x < 5;\n'
+   'Done() :- N(5);\nQ(x) :- N(x);', ['Q']),
+  ('duckdb_typed_mutual', '@Engine("duckdb");\nEv(0);\nOd(x + 1) :- Ev(x), x < 5;\nEv(x + 1) :- Od(x), x < 5;\n'
+   'Th(x) :- Ev(x), Od(x + 1);\nQ(x, {p: x}) :- Ev(x) | Od(x) | Th(x);', ['Q']),
+  ('psql_typed_mutual', '@Engine("psql");\nA(0, "z");\nB(x + 1, s) :- A(x, s), x < 3;\nC(x, s ++ "c") :- B(x, s);\n'
+   'A(x + 1, s) :- C(x, s), B(x, s);\nQ(x, [s]) :- A(x, s) | B(x, s) | C(x, s);', ['Q']),
   ('functor_many', '@Engine("sqlite");\nK(x) :- A(x);\nM(x) :- K(x), B(x);\nF(x) :- M(x);\nN1 := F(A: C);\nN2 := F(B: C);\n'
    'N3 := F(A: B, B: A);\nQ(x) :- N1(x) | N2(x) | N3(x);', ['Q']),
 ]
@@ -31,12 +45,13 @@ def programs():
   return ps
 
 
-def digest(text, preds, flags):
+def digest(text, preds, flags, rules=None):
   from parser_py import parse
   from compiler import universe
   h = hashlib.sha256()
   try:
-    rules = parse.ParseFile(text)['rule']
+    if rules is None:
+      rules = parse.ParseFile(text)['rule']
     prog = universe.LogicaProgram(rules, user_flags=flags or {})
     for p in preds:
       sql = prog.FormattedPredicateSql(p)
@@ -53,6 +68,10 @@ def digest(text, preds, flags):
 def main():
   order = sys.argv[1] if len(sys.argv) > 1 else 'forward'
   ps = programs()
+  if ':' in order:             # 'reuse:1/4' = the programs with index % 4 == 1
+    order, sl = order.split(':')
+    k, n = map(int, sl.split('/'))
+    ps = [p for i, p in enumerate(ps) if i % n == k]
   if order == 'reverse':
     ps = list(reversed(ps))
   out = {}
@@ -61,6 +80,31 @@ def main():
   if order == 'twice':
     for name, text, preds, flags in reversed(ps):
       out[name + '#again'] = digest(text, preds, flags)
+  if order == 'reuse':
+    # the same parsed rules object compiled twice; compilation must also leave the object as it was
+    import copy
+    from parser_py import parse
+    out = {}
+    for name, text, preds, flags in ps:
+      try:
+        rules = parse.ParseFile(text)['rule']
+      except Exception:
+        continue
+      snapshot = copy.deepcopy(rules)
+      out[name] = digest(text, preds, flags, rules=rules)
+      if rules != snapshot:
+        out[name + '#frame'] = 'rules object modified by compilation'
+      out[name + '#reused'] = digest(text, preds, flags, rules=rules)
+      out[name + '#reused-reversed-predicates'] = digest(text, list(reversed(preds)), flags, rules=rules) \
+          if len(preds) == 1 else out[name + '#reused']
+  if order.startswith('shuffle'):
+    import random
+    rnd = random.Random(int(order[7:] or 1))
+    ps2 = list(ps)
+    rnd.shuffle(ps2)
+    out = {}
+    for name, text, preds, flags in ps2:
+      out[name] = digest(text, preds, flags)
   print(json.dumps(out))
 
 
